@@ -31,6 +31,8 @@ class GBuf:
         self.data = list(data)
         self.freed = False
         self.merged = False
+        self.segs = None          # optional segmentation (list of segment sizes): read / write map to the end of a segment
+        self.shared = False       # a shared area: write mappings are refused
 
 
 class GUref:
@@ -54,6 +56,7 @@ class BlockMachine(Machine):
         self.mem = {}             # (region, idx) -> token
         self.heap = {}            # (object, 'next'|'prev') -> object: the links of uchain structures
         self.objf = {}            # (object, field) -> value: fields of objects other than the pipe
+        self.token_values = False     # loads of symbolic payload octets yield the token (for copy / swap loops)
         self.fragment_reads = False   # read/write may map less than asked (segment boundary): explored both ways
         self.views = {}           # region -> (buf id, offset) for mapped windows
         self.track = set()        # regions whose octets must be written before they are read
@@ -63,6 +66,7 @@ class BlockMachine(Machine):
         self.output_fns = set()   # names of the pipe's output function(s): (upipe, uref, upump_p)
         self.err_invalid = self._enum('UBASE_ERR_INVALID', 6)
         self.err_alloc = self._enum('UBASE_ERR_ALLOC', 2)
+        self.err_busy = self._enum('UBASE_ERR_BUSY', 8)
         self.reads_checked = 0
 
     def _enum(self, name, default):
@@ -146,6 +150,8 @@ class BlockMachine(Machine):
     def deref(self, p, node, write):
         if isinstance(p, tuple) and p[0] == 'p':
             v = self.tok_at(p, node, write)
+            if self.token_values and isinstance(v, tuple) and v and v[0] == 'b':
+                return v          # a payload octet moved around as a value keeps its identity
             return v if isinstance(v, int) else SYM
         return SYM
 
@@ -378,6 +384,14 @@ class BlockMachine(Machine):
                 self.free_buf(u.ubuf, node)
             u.ubuf = v[1][1] if isinstance(v[1], tuple) and v[1][0] == 'ubuf' else None
             return None
+        if name == 'ubuf_block_copy':
+            b = self.buf_of(v[1], node, name)
+            if b is None:
+                return ('null',)
+            n = self.norm(b, v[2], v[3], node)
+            if n is None:
+                return ('null',)
+            return self.new_buf(b.data[n[0]:n[0] + n[1]])
         if name in ('ubuf_block_alloc',):
             if not isinstance(v[1], int):
                 raise Undecided('allocation of a symbolic size at line %s' % ln)
@@ -469,6 +483,15 @@ class BlockMachine(Machine):
             n = self.norm(b, v[1], want if isinstance(want, int) else -1, node)
             if n is None or (n[1] == 0 and want != 0):
                 return self.err_invalid
+            if op == 'write' and b.shared:
+                return self.err_busy
+            if b.segs:
+                end = 0
+                for sz in b.segs:
+                    end += sz
+                    if n[0] < end:
+                        break
+                n = (n[0], min(n[1], end - n[0]))
             if self.fragment_reads and n[1] > 1 and self.choose(2) == 1:
                 n = (n[0], 1)         # a segment boundary after one octet
             r = self.region(n[1], 'map')
@@ -492,6 +515,14 @@ class BlockMachine(Machine):
             if new < 0 or skip + new > n:
                 return self.err_invalid
             b.data[:] = b.data[skip:skip + new]
+            if b.segs:
+                segs, pos, out = b.segs, 0, []
+                for sz in segs:
+                    lo, hi = max(pos, skip), min(pos + sz, skip + new)
+                    if hi > lo:
+                        out.append(hi - lo)
+                    pos += sz
+                b.segs = out or None
             return 0
         if op == 'append':
             o = v[1]
